@@ -52,28 +52,33 @@ type Options struct {
 	SeedName string
 	DiskDB   bool // use the real on-disk CreateDB/OpenDB path instead of in-memory storage
 	NoAddrs  bool // do not issue any address at setup (C12)
+	// HarnessDB, if set, brackets database use by the harness itself (fault enumeration must
+	// neither count nor fail the status queries the simulator issues to decide enabledness).
+	HarnessDB func(begin bool)
 }
 
 // World is the closed system.
 type World struct {
-	Dir         string
-	Opt         Options
-	N           *simnode.Node
-	I           *inst.Inst
-	Wallets     map[string]*Wallet
-	owner       map[string]*Addr
-	SPk         []byte // stranger standard pkScript
-	SHash       []byte
-	S2Pk        []byte // second stranger script (double-spend destination)
-	led         *Ledger
-	ledTip      wire.Hash
-	refC        *enum.RefWallet
-	Pend        *PendingRef
-	BReimported bool
-	statusCache map[string]string
-	Restarts    int
-	Relayed     []*wire.MsgTx
-	RelayedKind []string
+	Dir          string
+	Opt          Options
+	N            *simnode.Node
+	I            *inst.Inst
+	Wallets      map[string]*Wallet
+	owner        map[string]*Addr
+	SPk          []byte // stranger standard pkScript
+	SHash        []byte
+	S2Pk         []byte // second stranger script (double-spend destination)
+	led          *Ledger
+	ledTip       wire.Hash
+	refC         *enum.RefWallet
+	Pend         *PendingRef
+	BReimported  bool
+	statusCache  map[string]string
+	Restarts     int
+	NewAddrCalls int
+	RemoveFailed bool // the last background removal run returned an error
+	Relayed      []*wire.MsgTx
+	RelayedKind  []string
 	// HandlerErrs collects errors returned by the handler entry points (handle() only logs them).
 	HandlerErrs []string
 }
@@ -302,6 +307,7 @@ func (w *World) NextSpendable(c *Coin, l *Ledger) bool {
 func (w *World) Restart() error {
 	if w.I.Raw != nil {
 		w.I.CloseRaw()
+		w.I.Raw = nil
 	}
 	i, err := inst.OpenAt(w.I.Store, w.N, w.Opt.Gap, inst.PubPass, w.Opt.Wrap)
 	if err != nil {
